@@ -52,6 +52,18 @@ def emit_tables(chk: Check, tb: dict) -> bool:
         body = [HEADER]
         for notn in ('polish', 'standard'):
             body.append(pl.emit_ptable(f'{notn}_table', tb['parse'][notn]))
+        if have_std():
+            rev = tb['reversed']['standard']
+            po, pc = rev['paren_open'], rev['paren_close']
+            if not (isinstance(po, list) and isinstance(pc, list) and len(po) == 1 and len(pc) == 1):
+                raise pl.Inexpressible(f'standard table reversed parens: {po!r} {pc!r}')
+            body.append(STD_IMPORT)
+            for nm, dp in (('std_opts', 'true'), ('std_opts_nodrop', 'false')):
+                body.append(f'Definition {nm} : sopts := {{| drop_parens := {dp}; popen := {po[0]}%N; pclose := {pc[0]}%N |}}.')
+            body.append('Definition parse_std C P i := parse_std_opts C std_opts P i.\n'
+                        'Definition run_history_std C P l := run_history_std_opts C std_opts P l.\n'
+                        'Definition parse_std_nd C P i := parse_std_opts C std_opts_nodrop P i.\n'
+                        'Definition run_history_std_nd C P l := run_history_std_opts C std_opts_nodrop P l.\n')
     except pl.Inexpressible as e:
         chk.obligation('tables:expressible', False)
         chk.violation('tables:inexpressible', f'parse tables cannot be expressed in the model: {e}',
@@ -196,8 +208,7 @@ def mutate(rng: random.Random, s: str, alphabet: list[str]) -> str:
 def render(notn: str, ref: pl.Ref, j, rng=None) -> str:
     if notn == 'polish':
         return ref.polish(j)
-    import stdref
-    return stdref.standard(ref, j, rng)
+    return pl.std_render(ref, j, rng)
 
 
 def gen_inputs(rng: random.Random, notn: str, ref: pl.Ref, n_random: int, n_mut: int):
@@ -244,6 +255,8 @@ def model_exprs(jobs: list[dict]) -> list[str]:
     ex = []
     for job in jobs:
         nt = NOTATIONS[job['notation']]
+        if (job.get('opts') or {}).get('drop_parens') is False:
+            nt = dict(nt, parse=nt['parse'] + '_nd', history=nt['history'] + '_nd')
         cfg = pl.coq_cfg(nt['table'], job.get('auto', True), job.get('frozen', False))
         P = pl.coq_store(job.get('preds', []))
         ins = job['inputs']
